@@ -1,4 +1,4 @@
-import Verif.Model.Render
+import Verif.Lemmas.C15Generic
 import Verif.Gen.Palette
 /-! C15 — rendering prints every entry once, in time order, for any input. -/
 namespace Render.C15
@@ -9,31 +9,6 @@ open Render Bytes
 /-- regenerated fact: the palette index is inside the palette for EVERY number of containers -/
 theorem palette_in_range (n : Nat) : Gen.paletteIndex n Gen.paletteLen < Gen.paletteLen := by
   unfold Gen.paletteIndex Gen.paletteLen; omega
-
-/-- the fold of `colorTable` succeeds when every index is inside the palette -/
-theorem colorFold_some (len : Nat) (l : List (List Nat × Nat)) (h : ∀ ci ∈ l, ci.2 < len) :
-    l.foldr (fun (ci : List Nat × Nat) acc =>
-      match acc with
-      | none => none
-      | some l => if ci.2 < len then some ((ci.1, paletteColor ci.2) :: l) else none) (some [])
-    = some (l.map fun ci => (ci.1, paletteColor ci.2)) := by
-  induction l with
-  | nil => rfl
-  | cons a l ih =>
-    have h1 : a.2 < len := h a (by simp)
-    have h2 : ∀ ci ∈ l, ci.2 < len := fun ci hci => h ci (by simp [hci])
-    simp only [List.foldr_cons, ih h2, h1, if_true, List.map_cons]
-
-/-- closed form of `colorTable` when the index function stays inside the palette -/
-theorem colorTable_eq (index : Nat → Nat → Nat) (len : Nat) (hi : ∀ k, index k len < len) (cs : List (List Nat)) :
-    colorTable index len cs = some (cs.zipIdx.map fun ck => (ck.1, paletteColor (index ck.2 len))) := by
-  unfold colorTable
-  refine Eq.trans (colorFold_some len _ ?_) ?_
-  · intro ci hci
-    simp only [List.mem_map] at hci
-    obtain ⟨⟨c, k⟩, _, rfl⟩ := hci
-    exact hi k
-  · simp [List.map_map, Function.comp_def]
 
 theorem colorTable_gen (cs : List (List Nat)) :
     colorTable Gen.paletteIndex Gen.paletteLen cs =
@@ -46,91 +21,6 @@ theorem render_never_panics (o : Opts) (ss : List Stream) :
   unfold render
   cases o.color <;> simp [colorTable_gen]
 
-/-! ## sorting -/
-
-theorem insertByT_perm (x : Entry) (l : List Entry) : (insertByT x l).Perm (x :: l) := by
-  induction l with
-  | nil => exact List.Perm.refl _
-  | cons y ys ih =>
-    unfold insertByT
-    split
-    · exact List.Perm.refl _
-    · exact (List.Perm.cons y ih).trans (List.Perm.swap x y ys)
-
-theorem foldl_insert_perm (es acc : List Entry) :
-    (es.foldl (fun acc e => insertByT e acc) acc).Perm (es ++ acc) := by
-  induction es generalizing acc with
-  | nil => exact List.Perm.refl _
-  | cons e es ih =>
-    simp only [List.foldl_cons, List.cons_append]
-    refine (ih _).trans ?_
-    refine (List.Perm.append_left es (insertByT_perm e acc)).trans ?_
-    exact List.perm_middle
-
-theorem sortByT_perm (es : List Entry) : (sortByT es).Perm es := by
-  have := foldl_insert_perm es []
-  simpa [sortByT] using this
-
-theorem insertByT_sorted (x : Entry) (l : List Entry) (h : l.Pairwise (fun a b => a.t ≤ b.t)) :
-    (insertByT x l).Pairwise (fun a b => a.t ≤ b.t) := by
-  induction l with
-  | nil => simp [insertByT]
-  | cons y ys ih =>
-    unfold insertByT
-    have hy := List.pairwise_cons.1 h
-    split
-    · rename_i hlt
-      refine List.pairwise_cons.2 ⟨?_, h⟩
-      intro a ha
-      rcases List.mem_cons.1 ha with rfl | ha
-      · omega
-      · have := hy.1 a ha; omega
-    · rename_i hlt
-      refine List.pairwise_cons.2 ⟨?_, ih hy.2⟩
-      intro a ha
-      have ha' := (insertByT_perm x ys).subset ha
-      rcases List.mem_cons.1 ha' with rfl | ha'
-      · omega
-      · exact hy.1 a ha'
-
-theorem foldl_insert_sorted (es acc : List Entry) (h : acc.Pairwise (fun a b => a.t ≤ b.t)) :
-    (es.foldl (fun acc e => insertByT e acc) acc).Pairwise (fun a b => a.t ≤ b.t) := by
-  induction es generalizing acc with
-  | nil => exact h
-  | cons e es ih => exact ih _ (insertByT_sorted e acc h)
-
-theorem sortByT_sorted (es : List Entry) : (sortByT es).Pairwise (fun a b => a.t ≤ b.t) :=
-  foldl_insert_sorted es [] List.Pairwise.nil
-
-theorem mem_sortByT {e : Entry} {es : List Entry} : e ∈ sortByT es ↔ e ∈ es :=
-  (sortByT_perm es).mem_iff
-
-theorem sortByT_length (es : List Entry) : (sortByT es).length = es.length :=
-  (sortByT_perm es).length_eq
-
-/-- a key that is duplicate-free on a list is injective on its members -/
-theorem eq_of_nodup_map {α β : Type} (f : α → β) (l : List α) (hd : (l.map f).Nodup) (a b : α)
-    (ha : a ∈ l) (hb : b ∈ l) (hab : f a = f b) : a = b := by
-  induction l with
-  | nil => cases ha
-  | cons x xs ih =>
-    simp only [List.map_cons, List.nodup_cons, List.mem_map, not_exists, not_and] at hd
-    rcases List.mem_cons.1 ha with h1 | h1 <;> rcases List.mem_cons.1 hb with h2 | h2
-    · rw [h1, h2]
-    · subst h1; exact absurd hab.symm (hd.1 b h2)
-    · subst h2; exact absurd hab (hd.1 a h1)
-    · exact ih hd.2 h1 h2
-
-/-- with distinct timestamps the order does not depend on the order in which streams/entries arrive -/
-theorem sortByT_perm_invariant (es es' : List Entry) (hp : es.Perm es') (hd : (es.map (·.t)).Nodup) :
-    sortByT es = sortByT es' := by
-  refine List.Perm.eq_of_pairwise (le := fun a b => a.t ≤ b.t) ?_ (sortByT_sorted es) (sortByT_sorted es') ?_
-  · intro a b ha hb h1 h2
-    have ha' : a ∈ es := mem_sortByT.1 ha
-    have hb' : b ∈ es := hp.symm.subset (mem_sortByT.1 hb)
-    exact eq_of_nodup_map (·.t) es hd a b ha' hb' (Nat.le_antisymm h1 h2)
-  · exact (sortByT_perm es).trans (hp.trans (sortByT_perm es').symm)
-
 /-! ## records -/
 
 theorem render_eq_gen (o : Opts) (ss : List Stream) :
@@ -142,16 +32,6 @@ theorem render_eq_gen (o : Opts) (ss : List Stream) :
   · refine ⟨(containersOf (flatten ss)).zipIdx.map fun ck =>
       (ck.1, paletteColor (Gen.paletteIndex ck.2 Gen.paletteLen)), ?_⟩
     simp [colorTable_gen]
-
-theorem render_colour_off (index : Nat → Nat → Nat) (len : Nat) (o : Opts) (hc : o.color = false) (ss : List Stream) :
-    render index len o ss = some ((sortByT (flatten ss)).flatMap (lineOf o [])) := by
-  unfold render
-  simp [hc]
-
-theorem lineOf_last (o : Opts) (colors : List (List Nat × List Nat)) (e : Entry) :
-    (lineOf o colors e).getLast? = some 10 := by
-  unfold lineOf
-  simp
 
 /-- exactly one output record per entry, each terminated by a line feed, in the order of `sortByT` -/
 theorem one_record_per_entry (o : Opts) (ss : List Stream) (out : List Nat)
@@ -175,117 +55,6 @@ theorem records_are_sorted_lines (o : Opts) (ss : List Stream) (out : List Nat)
   rw [hr] at h
   exact ⟨colors, by rw [← List.flatMap_def]; exact (Option.some.inj h).symm⟩
 
-/-- hence, with colour off and distinct timestamps, the rendered bytes do not depend on stream order -/
-theorem render_perm_invariant (index : Nat → Nat → Nat) (len : Nat) (o : Opts) (hc : o.color = false)
-    (ss ss' : List Stream) (hp : (flatten ss).Perm (flatten ss')) (hd : ((flatten ss).map (·.t)).Nodup) :
-    render index len o ss = render index len o ss' := by
-  rw [render_colour_off index len o hc, render_colour_off index len o hc,
-    sortByT_perm_invariant _ _ hp hd]
-
-/-! ## no escape byte with colour off -/
-
-theorem natDigitsAux_mem (fuel n : Nat) (acc : List Nat) :
-    ∀ b ∈ natDigitsAux fuel n acc, (48 ≤ b ∧ b ≤ 57) ∨ b ∈ acc := by
-  induction fuel generalizing n acc with
-  | zero => intro b hb; exact Or.inr hb
-  | succ f ih =>
-    intro b hb
-    unfold natDigitsAux at hb
-    split at hb
-    · rcases List.mem_cons.1 hb with rfl | hb
-      · left; omega
-      · exact Or.inr hb
-    · rcases ih _ _ b hb with h | h
-      · exact Or.inl h
-      · rcases List.mem_cons.1 h with rfl | h
-        · left; omega
-        · exact Or.inr h
-
-theorem natToDec_digits (n : Nat) : ∀ b ∈ natToDec n, 48 ≤ b ∧ b ≤ 57 := by
-  intro b hb
-  rcases natDigitsAux_mem _ _ _ b hb with h | h
-  · exact h
-  · cases h
-
-theorem pad_digits (w n : Nat) : ∀ b ∈ pad w n, 48 ≤ b ∧ b ≤ 57 := by
-  intro b hb
-  unfold pad at hb
-  rcases List.mem_append.1 hb with h | h
-  · have := (List.mem_replicate.1 h).2; omega
-  · exact natToDec_digits n b h
-
-theorem fracText_bytes (ns : Nat) : ∀ b ∈ fracText ns, b = 46 ∨ (48 ≤ b ∧ b ≤ 57) := by
-  intro b hb
-  unfold fracText at hb
-  split at hb
-  · cases hb
-  · rcases List.mem_cons.1 hb with rfl | hb
-    · exact Or.inl rfl
-    · right
-      have h1 := List.mem_reverse.1 hb
-      have h2 := (List.dropWhile_sublist _).subset h1
-      exact pad_digits 9 ns b (List.mem_reverse.1 h2)
-
-/-- `rfc3339Nano t` contains only digits, '-', 'T', ':', '.', 'Z' -/
-theorem rfc3339Nano_bytes (t : Nat) :
-    ∀ b ∈ rfc3339Nano t, (48 ≤ b ∧ b ≤ 57) ∨ b = 45 ∨ b = 84 ∨ b = 58 ∨ b = 46 ∨ b = 90 := by
-  intro b hb
-  unfold rfc3339Nano at hb
-  simp only [List.mem_append, List.mem_singleton] at hb
-  rcases hb with (((((((((((h | h) | h) | h) | h) | h) | h) | h) | h) | h) | h) | h) | h
-  all_goals first
-    | (have := pad_digits _ _ b h; omega)
-    | (have := fracText_bytes _ b h; omega)
-    | omega
-
-theorem rfc3339Nano_no_esc (t : Nat) : ∀ b ∈ rfc3339Nano t, b ≠ 27 := by
-  intro b hb
-  have := rfc3339Nano_bytes t b hb
-  omega
-
-theorem mem_trimRight {b : Nat} {s : List Nat} (h : b ∈ trimRight s) : b ∈ s := by
-  unfold trimRight at h
-  exact List.mem_reverse.1 ((List.dropWhile_sublist _).subset (List.mem_reverse.1 h))
-
-/-- `List.nil_append` as a proper rewrite rule (the core lemma is a `rfl`-lemma; used by `simp` as a
-definitional step it makes the kernel unfold `rfc3339Nano`) -/
-theorem nil_app (l : List Nat) : ([] : List Nat) ++ l = l := by cases l <;> rfl
-
-theorem lineOf_no_esc (o : Opts) (hc : o.color = false) (e : Entry) (hv : 27 ∉ e.v) (hcn : 27 ∉ e.container) :
-    27 ∉ lineOf o [] e := by
-  intro h
-  unfold lineOf at h
-  simp only [hc, Bool.false_eq_true, if_false, nil_app, List.append_nil, List.mem_append,
-    List.mem_singleton] at h
-  rcases h with ((h | h) | h) | h
-  · split at h
-    · simp only [List.mem_append, List.mem_singleton] at h
-      rcases h with h | h
-      · exact hcn h
-      · omega
-    · cases h
-  · split at h
-    · simp only [List.mem_append, List.mem_singleton] at h
-      rcases h with h | h
-      · exact rfc3339Nano_no_esc _ _ h rfl
-      · omega
-    · cases h
-  · exact hv (mem_trimRight h)
-  · omega
-
-/-- with colour off no escape byte is added: if no message and no container name contains ESC (27),
-the output contains none -/
-theorem no_escape_when_colour_off (index : Nat → Nat → Nat) (len : Nat) (o : Opts) (hc : o.color = false)
-    (ss : List Stream) (out : List Nat) (h : render index len o ss = some out)
-    (hm : ∀ e ∈ flatten ss, 27 ∉ e.v ∧ 27 ∉ e.container) : 27 ∉ out := by
-  rw [render_colour_off index len o hc] at h
-  have h' := Option.some.inj h
-  subst h'
-  intro hmem
-  obtain ⟨e, he, hb⟩ := List.mem_flatMap.1 hmem
-  have := hm e (mem_sortByT.1 he)
-  exact lineOf_no_esc o hc e this.1 this.2 hb
-
 /-! ## colours -/
 
 set_option linter.unusedVariables false in
@@ -295,49 +64,6 @@ theorem colour_consistent (o : Opts) (ss : List Stream) (colors : List (List Nat
     (hc : e1.container = e2.container) :
     colors.lookup e1.container = colors.lookup e2.container := by
   rw [hc]
-
-theorem foldl_containers_mem (es : List Entry) (acc : List (List Nat)) (c : List Nat)
-    (h : c ∈ acc ∨ ∃ e ∈ es, e.container = c) :
-    c ∈ es.foldl (fun acc e => if acc.any (· == e.container) then acc else acc ++ [e.container]) acc := by
-  induction es generalizing acc with
-  | nil =>
-    rcases h with h | ⟨e, he, _⟩
-    · exact h
-    · cases he
-  | cons x xs ih =>
-    simp only [List.foldl_cons]
-    apply ih
-    rcases h with h | ⟨e, he, rfl⟩
-    · left; split
-      · exact h
-      · exact List.mem_append_left _ h
-    · rcases List.mem_cons.1 he with rfl | he
-      · left; split
-        · rename_i hany
-          obtain ⟨y, hy, hyeq⟩ := List.any_eq_true.1 hany
-          have : y = e.container := by simpa using hyeq
-          exact this ▸ hy
-        · simp
-      · exact Or.inr ⟨e, he, rfl⟩
-
-theorem mem_containersOf {e : Entry} {es : List Entry} (he : e ∈ es) : e.container ∈ containersOf es :=
-  foldl_containers_mem es [] _ (Or.inr ⟨e, he, rfl⟩)
-
-theorem lookup_of_mem_keys (c : List Nat) (l : List (List Nat × List Nat)) (h : c ∈ l.map Prod.fst) :
-    ∃ code, l.lookup c = some code := by
-  induction l with
-  | nil => cases h
-  | cons a l ih =>
-    obtain ⟨k, v⟩ := a
-    simp only [List.lookup_cons]
-    by_cases hk : c = k
-    · subst hk; exact ⟨v, by simp⟩
-    · have hne : (c == k) = false := by simpa using hk
-      rw [hne]
-      simp only [List.map_cons, List.mem_cons] at h
-      rcases h with h | h
-      · exact absurd h hk
-      · exact ih h
 
 /-- every rendered container has a colour -/
 theorem colour_assigned (ss : List Stream) (colors : List (List Nat × List Nat))
@@ -366,40 +92,10 @@ theorem colour_from_palette (ss : List Stream) (colors : List (List Nat × List 
   refine ⟨_, ?_, palette_in_range ck.2, rfl⟩
   unfold Gen.paletteIndex; omega
 
-/-! ## trimming -/
-
-/-- trailing line breaks are trimmed, nothing else -/
-theorem trimRight_spec (s : List Nat) :
-    ∃ tail, s = trimRight s ++ tail ∧ (∀ c ∈ tail, c = 13 ∨ c = 10) ∧
-      (∀ c, (trimRight s).getLast? = some c → c ≠ 13 ∧ c ≠ 10) := by
-  refine ⟨(s.reverse.takeWhile (fun c => c == 13 || c == 10)).reverse, ?_, ?_, ?_⟩
-  · unfold trimRight
-    rw [← List.reverse_append, List.takeWhile_append_dropWhile, List.reverse_reverse]
-  · intro c hc
-    have h1 := List.all_takeWhile (p := fun c => c == 13 || c == 10) (l := s.reverse)
-    have := List.all_eq_true.1 h1 c (List.mem_reverse.1 hc)
-    simpa using this
-  · intro c hc
-    unfold trimRight at hc
-    rw [List.getLast?_reverse] at hc
-    have := List.head?_dropWhile_not (fun c => c == 13 || c == 10) s.reverse
-    rw [hc] at this
-    simpa using this
-
 /-! ## non-vacuity -/
-
-def exStreams : List Stream :=
-  [⟨[97], [(2000000000, [104, 105, 10]), (5, [120])]⟩, ⟨[98], [(1000000001, [121, 13, 10])]⟩]
 
 example : ∃ out, render Gen.paletteIndex Gen.paletteLen ⟨true, true, true⟩ exStreams = some out ∧ out ≠ [] :=
   ⟨_, rfl, by decide⟩
-
-example : (flatten exStreams).Perm (flatten exStreams.reverse) ∧ ((flatten exStreams).map (·.t)).Nodup ∧
-    exStreams.map (·.container) ≠ exStreams.reverse.map (·.container) ∧ (⟨true, true, false⟩ : Opts).color = false := by
-  refine ⟨?_, by decide, by decide, rfl⟩
-  decide
-
-example : ∀ e ∈ flatten exStreams, 27 ∉ e.v ∧ 27 ∉ e.container := by decide
 
 /-- colour off, on the example: "a 1970-01-01T00:00:00.000000005Z x\nb 1970-01-01T00:00:01.000000001Z y\na 1970-01-01T00:00:02Z hi\n" -/
 example : render Gen.paletteIndex Gen.paletteLen ⟨true, true, false⟩ exStreams =
@@ -411,7 +107,5 @@ example : render Gen.paletteIndex Gen.paletteLen ⟨true, true, false⟩ exStrea
 example : ∃ colors, colorTable Gen.paletteIndex Gen.paletteLen (containersOf (flatten exStreams)) = some colors ∧
     (∃ e1 ∈ flatten exStreams, ∃ e2 ∈ flatten exStreams, e1 ≠ e2 ∧ e1.container = e2.container) :=
   ⟨_, rfl, by decide⟩
-
-example : trimRight [104, 105, 13, 10, 10] = [104, 105] := by decide
 
 end Render.C15
